@@ -416,6 +416,258 @@ theorem exec_alive {st st' : State} (m : Micro) (he : exec' st m = some st') :
         · next h => rw [h, hac, had]
         · rfl
 
+theorem insertNew_per (st : State) (c : Var) (pos : Nat) (srcs : List (Nat × Option Loc × Option Nat)) :
+    (insertNew st c pos srcs).per = st.per := by
+  obtain ⟨st1, hst1, a1⟩ : ∃ st1, st1 = (if c.k.isHash && (st.nodes c).data.isNone then allocData st c else st) ∧
+      st1.per = st.per := by
+    refine ⟨_, rfl, ?_⟩
+    by_cases hc : (c.k.isHash && (st.nodes c).data.isNone) = true
+    · rw [if_pos hc]; rfl
+    · rw [if_neg hc]
+  obtain ⟨st2, hst2, a2⟩ : ∃ st2, st2 = (if (st1.nodes c).free.isEmpty then allocBlock st1 c else st1) ∧
+      st2.per = st1.per := by
+    refine ⟨_, rfl, ?_⟩
+    by_cases hc : (st1.nodes c).free.isEmpty = true
+    · rw [if_pos hc]; rfl
+    · rw [if_neg hc]
+  have heq : insertNew st c pos srcs =
+      (match (st2.nodes c).free with | it :: rest => useSlot st2 c pos it rest srcs | [] => st2) := by
+    subst hst2 hst1; rfl
+  rw [heq]
+  cases (st2.nodes c).free with
+  | nil => simp only; rw [a2, a1]
+  | cons it rest => simp only [useSlot, setNode_per, ctorList_per]; rw [a2, a1]
+
+/-- no step changes the table of items per block -/
+theorem exec'_per {st st' : State} (m : Micro) (he : exec' st m = some st') : st'.per = st.per := by
+  cases m with
+  | put c pos k v =>
+    simp only [exec'] at he
+    by_cases ha : (st.nodes c).alive = true
+    · simp only [ha, Bool.not_true, Bool.false_eq_true, if_false] at he
+      cases hkr : resolveOpt st k with
+      | none => simp [hkr] at he
+      | some kr =>
+        simp only [hkr] at he
+        cases hvr : resolveOpt st v with
+        | none => simp [hvr] at he
+        | some vr =>
+          simp only [hvr] at he
+          cases hsr : fieldSrcs c.k kr vr with
+          | none => simp [hsr] at he
+          | some srcs =>
+            simp only [hsr] at he
+            by_cases hpos : pos.getD (st.nodes c).items.length > (st.nodes c).items.length
+            · simp [hpos] at he
+            · simp only [hpos, if_false] at he
+              rcases Stable.putResolved_cases c _ kr vr srcs he with ⟨q, rfl⟩ | ⟨it, vl, vp, _, _, rfl⟩ | rfl
+              · exact insertNew_per st c q srcs
+              · rfl
+              · rfl
+    · simp [ha] at he
+  | assignVal c j src =>
+    simp only [exec'] at he
+    by_cases hf : 1 ∈ c.k.fields
+    · cases hj : (st.nodes c).items[j]? with
+      | none => simp [hf, hj] at he
+      | some it =>
+        cases hr : resolve st src with
+        | none => simp [hf, hj, hr] at he
+        | some lp =>
+          obtain ⟨l, p⟩ := lp
+          cases l with
+          | none => simp [hf, hj, hr] at he
+          | some l => simp [hf, hj, hr] at he; subst he; rfl
+    · simp [hf] at he
+  | remove c j =>
+    simp only [exec'] at he
+    cases hj : (st.nodes c).items[j]? with
+    | none => simp [hj] at he
+    | some it => simp [hj] at he; subst he; simp [removeAt, State.dtorItem]
+  | removeKey c k =>
+    simp only [exec'] at he
+    cases hp : k.payload st with
+    | none => simp [hp] at he
+    | some kp =>
+      cases hf : findField st 0 kp (st.nodes c).items with
+      | none => simp [hp, hf] at he; subst he; rfl
+      | some j =>
+        cases hj : (st.nodes c).items[j]? with
+        | none => simp [hp, hf, hj] at he
+        | some it => simp [hp, hf, hj] at he; subst he; simp [removeAt, State.dtorItem]
+  | removeVal c v =>
+    simp only [exec'] at he
+    cases hp : v.payload st with
+    | none => simp [hp] at he
+    | some vp =>
+      cases hf : findField st 1 vp (st.nodes c).items with
+      | none => simp [hp, hf] at he; subst he; rfl
+      | some j =>
+        cases hj : (st.nodes c).items[j]? with
+        | none => simp [hp, hf, hj] at he
+        | some it => simp [hp, hf, hj] at he; subst he; simp [removeAt, State.dtorItem]
+  | clear c =>
+    simp only [exec'] at he
+    cases hA : (st.nodes c).alive with
+    | false => simp [hA] at he
+    | true =>
+      have hg : ¬ ((!(st.nodes c).alive) = true) := by simp [hA]
+      rw [if_neg hg] at he
+      have he := Option.some.inj he
+      subst he; simp [State.dtorItems]
+  | destroy c =>
+    simp only [exec'] at he
+    cases hA : (st.nodes c).alive with
+    | false => simp [hA] at he
+    | true =>
+      have hg : ¬ ((!(st.nodes c).alive) = true) := by simp [hA]
+      rw [if_neg hg] at he
+      have he := Option.some.inj he
+      subst he
+      cases (st.nodes c).data <;> simp [State.dtorItems]
+  | create c =>
+    simp only [exec'] at he
+    cases hA : (st.nodes c).alive with
+    | true => simp [hA] at he
+    | false =>
+      have hg : ¬ ((st.nodes c).alive = true) := by simp [hA]
+      rw [if_neg hg] at he
+      have he := Option.some.inj he
+      subst he; simp
+  | swap c d =>
+    simp only [exec'] at he
+    by_cases hg : (!(st.nodes c).alive || !(st.nodes d).alive || c.k != d.k) = true
+    · simp [hg] at he
+    · rw [if_neg hg] at he
+      have he := Option.some.inj he
+      subst he; rfl
+  | aReserve a n =>
+    simp only [exec'] at he
+    cases hA : (st.arrs a).alive with
+    | false => simp [hA] at he
+    | true =>
+      have hg : ¬ ((!(st.arrs a).alive) = true) := by simp [hA]
+      rw [if_neg hg] at he
+      by_cases hc : (decide (n > (st.arrs a).cap) || (st.arrs a).store.isNone && decide (n > 0)) = true
+      · rw [if_pos hc] at he
+        have he := Option.some.inj he
+        subst he
+        cases (st.arrs a).store <;> simp
+      · rw [if_neg hc] at he
+        have he := Option.some.inj he
+        subst he; rfl
+  | aPush a src =>
+    simp only [exec'] at he
+    cases hs : (st.arrs a).store with
+    | none => simp [hs] at he
+    | some s' =>
+      by_cases hj : (st.arrs a).size ≥ (st.arrs a).cap
+      · simp [hs, hj] at he
+      · cases hr : resolve st src with
+        | none => simp [hs, hj, hr] at he
+        | some lp =>
+          obtain ⟨l, p⟩ := lp
+          simp [hs, hj, hr] at he
+          subst he; rfl
+  | aTruncate a n =>
+    simp only [exec'] at he
+    cases hA : (st.arrs a).alive with
+    | false => simp [hA] at he
+    | true =>
+      have hg : ¬ ((!(st.arrs a).alive) = true) := by simp [hA]
+      rw [if_neg hg] at he
+      cases hs : (st.arrs a).store with
+      | none => simp only [hs, Option.some.injEq] at he; subst he; rfl
+      | some s' =>
+        by_cases hn : n < (st.arrs a).size
+        · simp only [hs, hn, if_true, Option.some.injEq] at he
+          subst he; simp [dtorRange]
+        · simp only [hs, hn, if_false, Option.some.injEq] at he
+          subst he; rfl
+  | aAssign a j src =>
+    simp only [exec'] at he
+    cases hs : (st.arrs a).store with
+    | none => simp [hs] at he
+    | some s' =>
+      by_cases hj : j ≥ (st.arrs a).size
+      · simp [hs, hj] at he
+      · cases hr : resolve st src with
+        | none => simp [hs, hj, hr] at he
+        | some lp =>
+          obtain ⟨l, p⟩ := lp
+          cases l with
+          | none => simp [hs, hj, hr] at he
+          | some l => simp [hs, hj, hr] at he; subst he; rfl
+  | aRemove a j =>
+    simp only [exec'] at he
+    cases hs : (st.arrs a).store with
+    | none => simp [hs] at he
+    | some s' =>
+      by_cases hj : j ≥ (st.arrs a).size
+      · simp [hs, hj] at he
+      · simp [hs, hj] at he
+        subst he; simp
+  | aDestroy a =>
+    simp only [exec'] at he
+    cases hA : (st.arrs a).alive with
+    | false => simp [hA] at he
+    | true =>
+      have hg : ¬ ((!(st.arrs a).alive) = true) := by simp [hA]
+      rw [if_neg hg] at he
+      have he := Option.some.inj he
+      subst he
+      cases (st.arrs a).store <;> simp [dtorRange]
+  | aCreate a cap =>
+    simp only [exec'] at he
+    cases hA : (st.arrs a).alive with
+    | true => simp [hA] at he
+    | false =>
+      have hg : ¬ ((st.arrs a).alive = true) := by simp [hA]
+      rw [if_neg hg] at he
+      have he := Option.some.inj he
+      subst he; rfl
+  | aSwap a b =>
+    simp only [exec'] at he
+    by_cases hg : (!(st.arrs a).alive || !(st.arrs b).alive) = true
+    · simp [hg] at he
+    · rw [if_neg hg] at he
+      have he := Option.some.inj he
+      subst he; rfl
+
+theorem exec_per {st st' : State} (m : Micro) (he : exec st m = some st') : st'.per = st.per :=
+  exec'_per m (Stable.exec_exec' he)
+
+theorem execAll_per {st st' : State} (ms : List Micro) (he : execAll st ms = some st') : st'.per = st.per := by
+  induction ms generalizing st with
+  | nil => simp only [execAll, Option.some.injEq] at he; subst he; rfl
+  | cons m rest ih =>
+    simp only [execAll] at he
+    cases hm : exec st m with
+    | none => rw [hm] at he; cases he
+    | some s1 => rw [hm] at he; rw [ih he, exec_per m hm]
+
+theorem step_per (st : State) (op : Op) : (step st op).per = st.per := by
+  unfold step stepRes
+  cases hc : compile st op with
+  | none => rfl
+  | some ms =>
+    simp only
+    cases he : execAll st ms with
+    | none => rfl
+    | some st' => exact execAll_per ms he
+
+theorem run_per (st : State) (ops : List Op) : (run st ops).per = st.per := by
+  induction ops generalizing st with
+  | nil => rfl
+  | cons op rest ih => simp only [run]; rw [ih, step_per]
+
+theorem init_per (p : Per) : (init p).per = p := by
+  rw [execAll_per createAll (init_defined p)]; rfl
+
+/-- the table of items per block of a reachable state is the one the history started with -/
+theorem reach_per (p : Per) (ops : List Op) : (run (init p) ops).per = p := by
+  rw [run_per, init_per]
+
 /-- the steps that do not construct / destroy a variable -/
 def plain : Micro → Bool
   | .destroy _ => false | .create _ => false | .aDestroy _ => false | .aCreate _ _ => false
@@ -552,22 +804,26 @@ theorem allAlive_run {st : State} (h : AllAlive st) (ops : List Op) : AllAlive (
   | nil => exact h
   | cons op rest ih => exact ih (h.of_flags (step_flags st op))
 
-theorem init_nodes_alive : ∀ c, c ∈ nodeVars → (init.nodes c).alive = true := by decide
-theorem init_arrs_alive : (init.arrs 0).alive = true ∧ (init.arrs 1).alive = true := by decide
+theorem init_nodes_alive (p : Per) : ∀ c, c ∈ nodeVars → ((init p).nodes c).alive = true := by
+  intro c hc
+  simp only [nodeVars, nodeKinds, List.flatMap_cons, List.flatMap_nil, List.append_nil, List.cons_append,
+    List.nil_append, List.mem_cons, List.not_mem_nil, or_false] at hc
+  rcases hc with rfl | rfl | rfl | rfl | rfl | rfl | rfl | rfl | rfl | rfl | rfl | rfl | rfl | rfl <;> rfl
+theorem init_arrs_alive (p : Per) : ((init p).arrs 0).alive = true ∧ ((init p).arrs 1).alive = true := ⟨rfl, rfl⟩
 theorem nodeVars_nodup : nodeVars.Nodup := by decide
 theorem nodeVars_valid : ∀ c, c ∈ nodeVars → c.valid = true := by decide
 
-theorem allAlive_init : AllAlive init := by
+theorem allAlive_init (p : Per) : AllAlive (init p) := by
   constructor
-  · intro c hc; exact init_nodes_alive c (valid_mem_nodeVars c hc)
+  · intro c hc; exact init_nodes_alive p c (valid_mem_nodeVars c hc)
   · intro a ha
     have : a = 0 ∨ a = 1 := by omega
     rcases this with rfl | rfl
-    · exact init_arrs_alive.1
-    · exact init_arrs_alive.2
+    · exact (init_arrs_alive p).1
+    · exact (init_arrs_alive p).2
 
 /-- in every reachable state all sixteen variables are alive -/
-theorem allAlive_reach (ops : List Op) : AllAlive (run init ops) := allAlive_run allAlive_init ops
+theorem allAlive_reach (p : Per) (ops : List Op) : AllAlive (run (init p) ops) := allAlive_run (allAlive_init p) ops
 
 theorem destroyList_defined : ∀ (vars : List Var) (st : State), vars.Nodup →
     (∀ c, c ∈ vars → c.valid = true ∧ (st.nodes c).alive = true) →
@@ -605,8 +861,8 @@ theorem destroyAll_defined {st : State} (h : AllAlive st) : ∃ st', execAll st 
   exact ⟨st', by simp only [destroyAll, List.cons_append, List.nil_append, execAll, h0, h1]; exact h2⟩
 
 /-- the destructors of the sixteen variables are executable after every history -/
-theorem finish_defined (ops : List Op) : ∃ st', execAll (run init ops) destroyAll = some st' :=
-  destroyAll_defined (allAlive_reach ops)
+theorem finish_defined (p : Per) (ops : List Op) : ∃ st', execAll (run (init p) ops) destroyAll = some st' :=
+  destroyAll_defined (allAlive_reach p ops)
 
 -- E2: the pool containers at operation level ---------------------------------------------------------------
 
@@ -715,11 +971,11 @@ theorem absArr_congr {st st' : State} (a : Nat) (ha : st'.arrs a = st.arrs a)
     exact hm s i hs (List.mem_range.mp hi)
 
 /-- an operation leaves every node container it does not name unchanged (variable and abstract value) -/
-theorem step_frame_node (ops : List Op) (op : Op) (c : Var) (hc : c ∉ op.nodeTargets) :
-    ((step (run init ops) op).nodes c = (run init ops).nodes c) ∧
-      absNode (step (run init ops) op) c = absNode (run init ops) c := by
-  have h := (reach_ok ops).1
-  generalize run init ops = st at h
+theorem step_frame_node (p : Per) (ops : List Op) (op : Op) (c : Var) (hc : c ∉ op.nodeTargets) :
+    ((step (run (init p) ops) op).nodes c = (run (init p) ops).nodes c) ∧
+      absNode (step (run (init p) ops) op) c = absNode (run (init p) ops) c := by
+  have h := (reach_ok p ops).1
+  generalize run (init p) ops = st at h
   unfold step stepRes
   cases hcp : compile st op with
   | none => exact ⟨rfl, rfl⟩
@@ -733,11 +989,11 @@ theorem step_frame_node (ops : List Op) (op : Op) (c : Var) (hc : c ∉ op.nodeT
       exact ⟨n, absNode_congr c n m⟩
 
 /-- an operation leaves every array it does not name unchanged (variable and abstract value) -/
-theorem step_frame_arr (ops : List Op) (op : Op) (a : Nat) (ha : a ∉ op.arrTargets) :
-    ((step (run init ops) op).arrs a = (run init ops).arrs a) ∧
-      absArr (step (run init ops) op) a = absArr (run init ops) a := by
-  have h := (reach_ok ops).1
-  generalize run init ops = st at h
+theorem step_frame_arr (p : Per) (ops : List Op) (op : Op) (a : Nat) (ha : a ∉ op.arrTargets) :
+    ((step (run (init p) ops) op).arrs a = (run (init p) ops).arrs a) ∧
+      absArr (step (run (init p) ops) op) a = absArr (run (init p) ops) a := by
+  have h := (reach_ok p ops).1
+  generalize run (init p) ops = st at h
   unfold step stepRes
   cases hcp : compile st op with
   | none => exact ⟨rfl, rfl⟩
